@@ -526,4 +526,13 @@ def declsOf (old new : AV) : Option (List AV × List Rg × List Fate × Bool × 
       | none => none
   | _, _ => none
 
+mutual
+/-- the start of every comment group associated with some value of the snapshot -/
+def groupStarts : AV → List Nat
+  | .mk _ _ _ _ _ cms _ _ _ ks => cms.filterMap (fun cg => cg.head?.map (·.1)) ++ groupStartsL ks
+def groupStartsL : List AV → List Nat
+  | [] => []
+  | v :: vs => groupStarts v ++ groupStartsL vs
+end
+
 end Gopatch.AD
